@@ -324,7 +324,13 @@ def check_type(run, f, cfg, tname, from_fn, null_fn, vt_impl):
                 run.ob("C12.R2", "try_from-payload:%s" % key, good,
                        "try_from for %s returns the stored payload up to identity-preserving steps (%s)" % (short, ", ".join(s.rsplit("::", 1)[-1] for s in steps) or "move/deref"),
                        sp=fn["sp"], cfg=cfg, detail=problems or None)
-        # array_type
+        check_array_type(run, f, cfg, tname, vt_impl, vfrom)
+
+
+def check_array_type(run, f, cfg, tname, vt_impl, vfrom):
+    short = tname
+    key = re.sub(r"[^A-Za-z0-9_<>&\[\]:]", "", tname)
+    if vt_impl:
         at = vt_impl["items"].get("array_type")
         afn = f.fns.get(at)
         if afn is not None and vfrom is not None:
@@ -340,8 +346,179 @@ def check_type(run, f, cfg, tname, from_fn, null_fn, vt_impl):
                 run.ob("C12.R1", "array_type:%s" % key, False, "array_type for %s not recognised" % short, sp=afn["sp"], cfg=cfg)
 
 
+# ---- symbolic interpretation ---------------------------------------------------------------------------------------------
+# The conversions are interpreted on symbolic payloads: x -> From<T>::from(x) -> ValueType::try_from(..) must give back the
+# same atom; conversions between the owned/borrowed forms of one value (COPY_CONVERSIONS), the reviewed foreign adapters
+# (TRUSTED) and the per-element conversions of a generic T are abstracted to the identity; anything else is outside the
+# fragment and the shape rules below decide.
+
+TRANSPARENT_METHODS = ("to_owned", "to_vec", "into_owned", "as_str", "as_ref", "clone", "into_boxed_slice", "into_vec", "as_slice", "borrow", "deref")
+
+
+def _conv_ok(rty, ty):
+    r0 = rty.lstrip("&")
+    if rty == ty or r0 == ty or ty == V or len(r0) == 1 or len(ty) == 1:     # same type, into Value, or a generic parameter
+        return True
+    return (rty, ty) in COPY_CONVERSIONS or (r0, ty) in COPY_CONVERSIONS or ("&" + r0, ty) in COPY_CONVERSIONS
+
+
+def sym_interp(f):
+    from ..interp import Interp, Opaque, Sym, Unsupported, Var
+    it = Interp(f)
+    it.free_opaque = True
+    it.max_depth = 10
+    it.opaque_conversions = _conv_ok
+    it.builtins = {"alloc::boxed::Box::<T>::new": lambda it_, a: a[0]}
+
+    def generic(callee, substs, vals):
+        s0 = (substs or ["?"])[0]
+        if callee == NULLABLE + "::null":
+            return Sym("%s::null" % s0)
+        if callee == VALUETYPE + "::array_type":
+            return Sym("%s::array_type" % s0)
+        if callee == VALUETYPE + "::try_from" and vals:
+            return ("Ok", vals[0])              # the element's own extraction: decided in the row of its type
+        if callee in (VALUETYPE + "::unwrap", V + "::unwrap") and vals:
+            return vals[0]
+        if callee == "crate::value::IntoValueTuple::into_value_tuple" and vals and isinstance(vals[0], Var) and vals[0].d.startswith("crate::value::ValueTuple::"):
+            return vals[0]                      # impl IntoValueTuple for ValueTuple is the identity
+        return None
+
+    def unknown(it_, e, env, depth):
+        callee = e.get("callee") or ""
+        res = H.callee(e) or ""
+        name = e.get("name") or callee.rsplit("::", 1)[-1]
+        vals = ([it_.ev(e["recv"], env, depth)] if e.get("k") == "mcall" else []) + [it_.ev(a, env, depth) for a in e.get("args") or []]
+        r = generic(callee, e.get("substs"), vals)
+        if r is not None:
+            return r
+        if (res in TRUSTED or callee in TRUSTED or name in TRANSPARENT_METHODS) and vals and isinstance(vals[0], Opaque):
+            return vals[0]
+        if callee in ("core::convert::Into::into", "core::convert::From::from") and vals and isinstance(vals[0], Opaque):
+            return vals[0]
+        raise Unsupported("call %s on a symbolic value" % (res or callee or name))
+
+    def unknown_fn(it_, d, node, args):
+        r = generic(d, (node or {}).get("substs"), args)
+        if r is None:
+            raise Unsupported("function value %s" % d)
+        return r
+    it.unknown_call = unknown
+    it.unknown_fn = unknown_fn
+    return it
+
+
+def _ok(v):
+    from ..interp import Var
+    if isinstance(v, Var) and v.d == "core::result::Result::Ok":
+        return True, v.fields[0]
+    if isinstance(v, tuple) and len(v) == 2 and v[0] == "Ok":
+        return True, v[1]
+    if isinstance(v, Var) and v.d == "core::result::Result::Err" or (isinstance(v, tuple) and len(v) == 2 and v[0] == "Err"):
+        return False, None
+    raise ValueError("not a Result: %r" % (v,))
+
+
+def type_by_interp(run, f, cfg, tname, from_fn, null_fn, vt_impl):
+    """True when the row of this type was decided by symbolic interpretation"""
+    from ..interp import Sym, Unsupported, Diverged, Var
+    key = re.sub(r"[^A-Za-z0-9_<>&\[\]:]", "", tname)
+    short = tname
+    is_vec = tname == "alloc::vec::Vec<T>"
+    x = [Sym("e0"), Sym("e1")] if is_vec else Sym("x")
+    obs = []
+    try:
+        var = None
+        v = None
+        if from_fn:
+            v = sym_interp(f).call_fn(from_fn, [list(x) if is_vec else x])
+            ok = isinstance(v, Var) and v.d.startswith(V + "::") and len(v.fields) in (1, 2) and v.fields[-1] == ("__some", x)
+            if ok and len(v.fields) == 2:
+                ok = v.fields[0] == Sym("T::array_type") if is_vec else isinstance(v.fields[0], (Var, Sym))
+            obs.append(("C12.R6" if is_vec else "C12.R1", "vec:from" if is_vec else "from:%s" % key, ok,
+                        "From<%s> for Value (interpreted on a symbolic argument) builds one variant holding Some(<the argument itself>)%s" % (short, "" if ok else " - NOT: %r" % (v,)),
+                        f.fns[from_fn]["sp"]))
+            if not is_vec:
+                obs.append(("C12.R2", "from-payload:%s" % key, ok, "From<%s>: the payload is the argument itself up to identity-preserving steps" % short, f.fns[from_fn]["sp"]))
+            var = v.d if isinstance(v, Var) else None
+        if null_fn:
+            n = sym_interp(f).call_fn(null_fn, [])
+            ok = isinstance(n, Var) and n.d.startswith(V + "::") and n.fields[-1] is None and (var is None or n.d == var)
+            obs.append(("C12.R1", "null:%s" % key, ok, "Nullable for %s is the None of the same variant as From<%s> (%s)%s" % (
+                short, short, (var or getattr(n, "d", "?")).rsplit("::", 1)[-1], "" if ok else " - NOT: %r" % (n,)), f.fns[null_fn]["sp"]))
+            if var is None and isinstance(n, Var):
+                var = n.d
+        if vt_impl:
+            tf = vt_impl["items"].get("try_from")
+            if tf not in f.fns or var is None:
+                return False
+            nf = len([vv for vv in f.adts[V]["variants"] if vv["def"] == var][0]["fields"])
+            good = Var(var, ([Sym("T::array_type")] if (nf == 2 and is_vec) else [Sym("ty")] * (nf - 1)) + [("__some", list(x) if is_vec else x)])
+            if v is not None and not is_vec and nf == 2:
+                good = v
+            r = sym_interp(f).call_fn(tf, [good])
+            isok, payload = _ok(r)
+            ok = isok and payload == x
+            # every other variant, and the NULL of its own, is refused
+            wrong = []
+            for vv in f.adts[V]["variants"]:
+                k = len(vv["fields"])
+                cands = [Var(vv["def"], [Sym("ty")] * (k - 1) + [None])]
+                if vv["def"] != var:
+                    cands.append(Var(vv["def"], [Sym("ty")] * (k - 1) + [("__some", [Sym("y")] if vv["def"].endswith("::Array") else Sym("y"))]))
+                elif is_vec:
+                    cands.append(Var(vv["def"], [Sym("another::array_type"), ("__some", [Sym("y")])]))
+                for c_ in cands:
+                    try:
+                        isok2, _p = _ok(sym_interp(f).call_fn(tf, [c_]))
+                    except Diverged:
+                        isok2 = False
+                    if isok2:
+                        wrong.append(repr(c_))
+            obs.append(("C12.R1", "try_from:%s" % key, ok and not wrong,
+                        "ValueType::try_from for %s (interpreted): returns the payload of %s(Some(..)) and fails on the NULL and on every other variant (%d probes)%s" % (
+                            short, var.rsplit("::", 1)[-1], 2 * len(f.adts[V]["variants"]),
+                            "" if ok and not wrong else " - NOT: %s" % ("accepts " + ", ".join(wrong[:3]) if wrong else "returns %r" % (r,))), f.fns[tf]["sp"]))
+            if is_vec:
+                obs.append(("C12.R6", "vec:guard", not wrong, "Vec<T>::try_from accepts an Array only when its element type equals T::array_type()", f.fns[tf]["sp"]))
+                obs.append(("C12.R6", "vec:elements", ok, "Vec<T>::try_from extracts every element in order", f.fns[tf]["sp"]))
+            else:
+                obs.append(("C12.R2", "try_from-payload:%s" % key, ok, "try_from for %s returns the stored payload up to identity-preserving steps" % short, f.fns[tf]["sp"]))
+    except (Unsupported, Diverged, ValueError) as e:
+        run.notes.append("C12 %s outside the interpreter's fragment (%s): decided by the shape rules" % (short, e))
+        return False
+    for rule, k, ok, what, sp in obs:
+        run.ob(rule, k, ok, what, sp=sp, cfg=cfg)
+    if from_fn and isinstance(v, Var):
+        DELEGATED.setdefault(id(f), {})[tname] = v.d
+    return True
+
+
+def option_by_interp(run, f, cfg, from_fn, try_fn):
+    from ..interp import Sym, Unsupported, Diverged
+    try:
+        a = sym_interp(f).call_fn(from_fn, [None])
+        b = sym_interp(f).call_fn(from_fn, [("__some", Sym("x"))])
+        ok1 = a == Sym("T::null") and b == Sym("x")
+        c = _ok(sym_interp(f).call_fn(try_fn, [Sym("T::null")]))
+        d = _ok(sym_interp(f).call_fn(try_fn, [Sym("v")]))
+        ok2 = c == (True, None) and d == (True, ("__some", Sym("v")))
+    except (Unsupported, Diverged, ValueError) as e:
+        run.notes.append("C12.R3 Option<T> outside the interpreter's fragment (%s): decided by the shape rules" % e)
+        return False
+    run.ob("C12.R3", "From<Option<T>>", ok1, "From<Option<T>> (interpreted): Some(v) -> v.into(), None -> T::null()%s" % ("" if ok1 else " - NOT: None -> %r, Some(x) -> %r" % (a, b)),
+           sp=f.fns[from_fn]["sp"], cfg=cfg)
+    run.ob("C12.R3", "ValueType<Option<T>>", ok2,
+           "Option<T>::try_from (interpreted): T::null() -> Ok(None), any other v -> Ok(Some(T::try_from(v)?))%s" % ("" if ok2 else " - NOT: null -> %r, v -> %r" % (c, d)),
+           sp=f.fns[try_fn]["sp"], cfg=cfg)
+    return True
+
+
 def check_option(run, f, cfg):
     fr = [i for i in f.impls if i.get("trait") == "core::convert::From" and i.get("self_adt") == V and "From<core::option::Option<T>>" in (i.get("trait_ref") or "")]
+    vt0 = [i for i in f.impls if i.get("trait") == VALUETYPE and i.get("self_ty") == "core::option::Option<T>"]
+    if len(fr) == 1 and len(vt0) == 1 and option_by_interp(run, f, cfg, fr[0]["items"]["from"], vt0[0]["items"]["try_from"]):
+        return
     if len(fr) != 1:
         run.anchor("C12.R3", "From<Option<T>>", "impl not found", cfg)
     else:
@@ -407,6 +584,72 @@ def vec_macro_elems(e):
     return None
 
 
+def _tuple_value(n, syms):
+    from ..interp import Var
+    VT = "crate::value::ValueTuple::"
+    if n <= 3:
+        return Var(VT + {1: "One", 2: "Two", 3: "Three"}[n], list(syms))
+    return Var(VT + "Many", [list(syms)])
+
+
+def _into_tuple_by_interp(run, f, cfg, rule, fname, n, is_tuple):
+    from ..interp import Sym, Unsupported, Diverged
+    syms = [Sym("c%d" % k) for k in range(n)]
+    try:
+        r = sym_interp(f).call_fn(fname, [tuple(syms) if is_tuple else syms[0]])
+    except (Unsupported, Diverged) as e:
+        run.notes.append("%s IntoValueTuple arity %d outside the interpreter's fragment (%s): decided by its shape" % (rule, n, e))
+        return False
+    want = _tuple_value(n, syms)
+    ok = r == want
+    run.ob(rule, "into:arity%d" % n, ok, "IntoValueTuple for arity %d (interpreted on symbolic components) builds ValueTuple::%s from the components in index order%s" % (
+        n, want.d.rsplit("::", 1)[-1], "" if ok else " - NOT: %r" % (r,)), sp=f.fns[fname]["sp"], cfg=cfg)
+    return True
+
+
+def _from_tuple_by_interp(run, f, cfg, rule, fname, n, is_tuple):
+    from ..interp import Sym, Unsupported, Diverged
+    syms = [Sym("c%d" % k) for k in range(n)]
+    try:
+        r = sym_interp(f).call_fn(fname, [_tuple_value(n, syms)])
+        want = tuple(syms) if is_tuple else syms[0]
+        ok = r == want
+        accepted = []
+        for m in sorted(set([1, 2, 3, 4, 5, n - 1, n + 1]) - {n, 0}):
+            try:
+                sym_interp(f).call_fn(fname, [_tuple_value(m, [Sym("d%d" % k) for k in range(m)])])
+                accepted.append(m)
+            except Diverged:
+                pass
+    except (Unsupported, Diverged) as e:
+        run.notes.append("%s FromValueTuple arity %d outside the interpreter's fragment (%s): decided by its shape" % (rule, n, e))
+        return False
+    run.ob(rule, "from:arity%d" % n, ok and not accepted,
+           "FromValueTuple for arity %d (interpreted) accepts only the matching shape and extracts the components in order%s" % (
+               n, "" if ok and not accepted else " - NOT: %s" % ("also accepts arity %s" % accepted if accepted else "returns %r" % (r,))),
+           sp=f.fns[fname]["sp"], cfg=cfg)
+    return True
+
+
+def _tuple_iter_by_interp(run, f, cfg, rule, fname):
+    from ..interp import Sym, Unsupported, Diverged
+    bad = []
+    try:
+        for n in (1, 2, 3, 4, 6):
+            syms = [Sym("c%d" % k) for k in range(n)]
+            r = sym_interp(f).call_fn(fname, [_tuple_value(n, syms)])
+            if isinstance(r, dict) and "__iter" in r:
+                r = r["__iter"][r["i"]:]
+            if r != syms:
+                bad.append("arity %d yields %r" % (n, r))
+    except (Unsupported, Diverged) as e:
+        run.notes.append("%s ValueTuple::into_iter outside the interpreter's fragment (%s): decided by its shape" % (rule, e))
+        return False
+    run.ob(rule, "ValueTuple::into_iter", not bad, "ValueTuple::into_iter (interpreted) yields the components in declaration order for every variant%s" % (
+        "" if not bad else " - NOT: " + "; ".join(bad)), sp=f.fns[fname]["sp"], cfg=cfg)
+    return True
+
+
 def check_tuples(run, f, cfg, rule="C12.R4"):
     ivt = [i for i in f.impls if i.get("trait") == "crate::value::IntoValueTuple"]
     arities = {}
@@ -421,6 +664,10 @@ def check_tuples(run, f, cfg, rule="C12.R4"):
             n = st.count(",") + 1
         else:
             n = 1
+        done = _into_tuple_by_interp(run, f, cfg, rule, i["items"]["into_value_tuple"], n, st.startswith("("))
+        if done:
+            arities[n] = True
+            continue
         var = (v or {}).get("callee") if isinstance(v, dict) else None
         comps = None
         if n <= 3 and isinstance(v, dict) and v.get("k") == "call":
@@ -442,6 +689,9 @@ def check_tuples(run, f, cfg, rule="C12.R4"):
         st = i["self_ty"]
         n = st.count(",") + 1 if st.startswith("(") else 1
         fn = f.fns[i["items"]["from_value_tuple"]]
+        if _from_tuple_by_interp(run, f, cfg, rule, i["items"]["from_value_tuple"], n, st.startswith("(")):
+            got[n] = True
+            continue
         ms = [m for m in walk(fn["hir"]) if m.get("k") == "match" and m.get("src") == "Normal"]
         ok = len(ms) == 1
         detail = None
@@ -498,6 +748,8 @@ def check_tuples(run, f, cfg, rule="C12.R4"):
         run.anchor(rule, "ValueTuple::into_iter", "impl not found", cfg)
     else:
         fn = f.fns[ii[0]["items"]["into_iter"]]
+        if _tuple_iter_by_interp(run, f, cfg, rule, ii[0]["items"]["into_iter"]):
+            return
         ms = [m for m in walk(fn["hir"]) if m.get("k") == "match" and m.get("src") == "Normal"]
         ok = len(ms) == 1
         if ok:
@@ -571,7 +823,11 @@ def check(run):
         for t in types:
             if t in ("core::option::Option<T>",):
                 continue
-            check_type(run, f, cfg, t, froms.get(t), nulls.get(t), vts.get(t))
+            if type_by_interp(run, f, cfg, t, froms.get(t), nulls.get(t), vts.get(t)):
+                # array_type stays a shape rule
+                check_array_type(run, f, cfg, t, vts.get(t), DELEGATED.get(id(f), {}).get(t))
+            else:
+                check_type(run, f, cfg, t, froms.get(t), nulls.get(t), vts.get(t))
             n += 1
             # a type that can be put in but not taken out (or vice versa) is fine; a type with From but no Nullable cannot be Option-al
         run.floor("C12.R1", "types", n, 38 if cfg == "all" else 14, cfg)
